@@ -206,6 +206,8 @@ class SimFile:
             self._commit(data, final=True)
         finally:
             self.closed = True
+        if d.on_commit is not None and not d.dead and not (s is not None and s.crashing):
+            d.on_commit(self.path)
         if s is not None and not s.crashing:
             s.seam("disk:close:post", self.path)
 
@@ -219,6 +221,7 @@ class SimDisk:
         self.dead = False
         self.bufsize = bufsize
         self.counts = {}
+        self.on_commit = None            # observer: called with the path whenever a complete file became durable
         self.problem = None              # set when the code used something the fake does not model
 
     def bump(self, k):
@@ -303,6 +306,8 @@ class SimDisk:
         if posixpath.dirname(b_) not in self.dirs:
             raise FileNotFoundError(errno.ENOENT, "No such file or directory", str(dst))
         self.files[b_] = self.files.pop(a_)       # atomic
+        if self.on_commit is not None:
+            self.on_commit(b_)
         if s is not None:
             s.seam("disk:replace:post", a_, b_)
 
